@@ -2,6 +2,7 @@
 //! model driver, plus per-property oracles used to search for replays (DESIGN.md §4.2, §5).
 mod c02;
 mod c03;
+mod c08;
 mod c09;
 mod c11;
 mod c12;
@@ -57,6 +58,7 @@ fn main() {
         "C02" => c02::run_c02(&mut rep, &tier, seed),
         "C03" => c03::run(&mut rep, &tier, seed),
         "C05" => c02::run_c05(&mut rep, &tier, seed),
+        "C08" => c08::run(&mut rep, &tier, seed),
         "C09" => c09::run(&mut rep, &tier, seed),
         "C11" => c11::run(&mut rep, &tier, seed),
         "C12" => c12::run(&mut rep, &tier, seed),
